@@ -4,17 +4,40 @@ from __future__ import annotations
 
 import importlib
 
-CONTRACT_MODULES = ["contracts.curves"]
+CONTRACT_MODULES = ["contracts.curves", "contracts.groups", "contracts.closed"]
 
 _COMMON_TRUST = [
     "CPython semantics as modelled in DESIGN.md section 3 (mathematical ints, bytes as octet sequences, static name resolution, no monkey-patching)",
     "the verifier itself: pyvc symbolic executor + polyid kernel + z3 4.x/5.x (soundness guarded by the seeded-mutant self-test and the CPython differential cross-check)",
 ]
 
+FIX_COMMITS = ["5333cc7", "18f94c5", "fece718", "e286108"]
+
 PROPS = {
     "C13": dict(level="proof", trusted=_COMMON_TRUST + [
         "field characteristic not in {2,3}: the only side condition polyid records; closed check on the real primes"],
-        assumptions=[]),
+        assumptions=[],
+        text="Every control path of add/double/neg/eq/is_on_curve/is_inf/normalize (both optimized curve modules), of the optimized line functions and of secp256k1's Jacobian add/double/conversions is symbolically executed from the real source and its result is proved, as polynomial identities valid in every field of characteristic > 3 and for every representative, to be a valid representative of exactly what the affine chord-and-tangent law (resp. the affine line function) gives. Proof is the right level: the property is a finite list of universally quantified identities.",
+        note="Trusted: the verifier (pyvc + polyid kernel, sympy factorisation re-checked by expansion), CPython semantics of DESIGN section 3, characteristic not in {2,3}. secp256k1: 'no curve point with y = 0' is a closed fact (eval).",
+        design_ref="DESIGN.md section 8 C13"),
+    "C18": dict(level="proof", trusted=_COMMON_TRUST, assumptions=[
+        "A-PRIME: the secp256k1 field prime P is prime (standard constant; needed for Z/P to be a field)"],
+        text="Jacobian add/double/to_jacobian/from_jacobian are proved against the affine law on every path (polyid); jacobian_multiply is proved by induction to return (n mod N).P for every integer n, with termination measure and halving depth bound; add, multiply, privtopub are proved as compositions over those contracts (z3, module normal form); constants are compared with the SEC 2 literals and G on curve, N.G = O by independent integer arithmetic (eval).",
+        note="Assumes P prime (A-PRIME); group axioms of the spec law are Lean-checked (lean/GroupLaw.lean) when ./check --setup has run, otherwise listed as assumed. secp256k1.inv is used through its contract (proved in the ints layer when built, else assumed).",
+        design_ref="DESIGN.md section 8 C18"),
+    "C07": dict(level="proof", trusted=_COMMON_TRUST, assumptions=[
+        "A-PRIME: field moduli and curve orders of alt_bn128 and BLS12-381 are prime (standard constants)",
+        "field classes implement field arithmetic (proved separately: C08)"],
+        text="add/double/neg/eq/is_on_curve/is_inf of the two reference modules (affine, None = infinity) and of the two optimized modules (projective) are proved on every path to compute the affine group law for every field of characteristic > 3 (so for base curve, twist and E(F_p^12) at once); multiply in all four modules is proved by induction to be the n-fold sum for every n >= 0; the abelian-group axioms of the spec law are the Lean lemma L-GROUP; generators, coefficients, moduli, orders are compared with pinned standard literals and their family derivations (eval).",
+        note="Assumes primality of the standard moduli/orders (A-PRIME) and that the field classes are fields (C08). The twist-embedding clause is decided by the closed facts and the twist contract where built; see evidence.notes.",
+        design_ref="DESIGN.md section 8 C07"),
+    "C17": dict(level="proof", trusted=_COMMON_TRUST, assumptions=[
+        "A-ORDER: #E(F_p) = h1 r (forced by Hasse + r prime, eval) and #E'(F_p2) = h2 r (assumed; Hasse-interval cross-check by eval)",
+        "A-STRUCT-G1: the cofactor part of E(F_p) has exponent dividing 1 - x (RFC 9380 section 8.8.1); needed only for 'clear_cofactor_G1 lands in the subgroup'",
+        "A-PRIME: r prime"],
+        text="subgroup_check is proved (over the contracts of multiply and is_inf) to return True exactly when r.abs(P) = O for the pinned r, for any representative; cofactor clearing is proved to be multiplication by the pinned RFC 9380 effective cofactors; the cofactor constants are derived from the curve parameter x by eval. That r.(kG+T) = O iff T = O for cofactor-torsion T is Lean lemma subgroup_check_exact with gcd(h, r) = 1 by eval.",
+        note="'Maps every curve point into the subgroup' rests on the assumed point counts (A-ORDER; for E(F_p) forced by Hasse, eval) and, for G1, on A-STRUCT-G1. These are listed as assumptions, not counted as discharged.",
+        design_ref="DESIGN.md section 8 C17"),
 }
 
 _cache = None
